@@ -15,6 +15,7 @@ package gateway
 
 import (
 	"context"
+	"fmt"
 	"reflect"
 
 	"github.com/openkruise/rollouts/api/v1beta1"
@@ -46,6 +47,12 @@ type gatewayController struct {
 
 // NewGatewayTrafficRouting The Gateway API is a part of the SIG Network.
 func NewGatewayTrafficRouting(client client.Client, conf Config) (network.NetworkProvider, error) {
+	// The route builders tell the canary backendRef from the stable one by the Service name. Without a canary
+	// Service of its own (disableGenerateCanaryService, TrafficRouting CR) both names coincide: the user's own
+	// backendRef would be taken for the canary ref and dropped by Finalise.
+	if conf.CanaryService == conf.StableService {
+		return nil, fmt.Errorf("gateway API traffic routing needs a canary service distinct from the stable service(%s)", conf.StableService)
+	}
 	r := &gatewayController{
 		Client: client,
 		conf:   conf,
